@@ -61,6 +61,9 @@ pub struct PauseRec {
     pub enqueued: Vec<u64>,
     pub cleared: Vec<u64>,
     pub packets_run: u64,
+    /// ConcurrentImmix pause kind captured while the pause is in progress (the plan resets it in
+    /// end_of_gc, before resume_mutators is called).
+    pub pause_kind: u8,
 }
 
 #[derive(Clone, Debug, Default)]
@@ -124,6 +127,8 @@ pub struct World {
     /// SATB: objects that must survive the final mark pause (ids)
     pub satb_keep: BTreeSet<u64>,
     pub satb_active: bool,
+    /// objects allocated while concurrent marking is in progress (the N of S ∪ N)
+    pub satb_new: BTreeSet<u64>,
     /// Objects in never-collected spaces that became unreachable (still must stay intact).
     pub immortal_dead: BTreeSet<u64>,
     pub oom_events: Vec<(usize, u64, u64)>, // (tls, step, pauses_done)
@@ -425,7 +430,9 @@ pub fn on_stop_begin() {
 }
 
 pub fn on_stop_end() {
+    let info = introspect::gc_info(mmtk());
     with_world(|w| {
+        w.pause.pause_kind = info.pause;
         w.pause.stopped = true;
         w.note("all mutators stopped".into());
     });
